@@ -11,12 +11,21 @@ import (
 )
 
 // Table creates a tokens table of k arbitrary distinct non-admin rows.
-func Table(k int, admin string) (*sqlx.DB, []string) {
+func Table(k int, admin string) (*sqlx.DB, []string) { return table(k, admin, false) }
+
+// TableAny: as Table, but a stored row may equal the configured admin token (an issued token
+// promoted to admin token in the configuration, or a collision): the admin token must still
+// authenticate as admin.
+func TableAny(k int, admin string) (*sqlx.DB, []string) { return table(k, admin, true) }
+
+func table(k int, admin string, mayEqualAdmin bool) (*sqlx.DB, []string) {
 	db := vhdb.NewDB()
 	toks := make([]string, k)
 	for i := range toks {
 		toks[i] = vh.NondetStr("stored")
-		vh.Assume(!vh.StrEq(toks[i], admin))
+		if !mayEqualAdmin {
+			vh.Assume(!vh.StrEq(toks[i], admin))
+		}
 		for j := 0; j < i; j++ {
 			vh.Assume(!vh.StrEq(toks[i], toks[j]))
 		}
@@ -31,7 +40,7 @@ func Table(k int, admin string) (*sqlx.DB, []string) {
 func HarnessOps(k int, n int) {
 	admin := vh.NondetStr("admin")
 	vh.Assume(!vh.StrEq(admin, ""))
-	db, toks := Table(k, admin)
+	db, toks := TableAny(k, admin)
 	svc := service.NewTokenService(hstore.Repos(db), admin)
 	probe := vh.NondetStr("probe")
 	if vh.Choose(2) == 1 {
